@@ -73,6 +73,19 @@ func histValue(r interface{ Intn(int) int }, shared []any) any {
 		return NewObject()
 	case 10, 11:
 		return shared[r.Intn(len(shared))]
+	case 12:
+		// containers that are themselves derived results (SubList / Concat / Clone / Filter / Keys)
+		switch r.Intn(5) {
+		case 0:
+			return NewList(1, 2, "t").SubList(0, 2)
+		case 1:
+			return NewList(1).Concat(NewList("c"))
+		case 2:
+			return NewObject("a", NewList(1)).Clone()
+		case 3:
+			return NewList(1, "x", 2).Filter(func(v any) bool { _, ok := v.(int); return ok })
+		}
+		return NewObject("k1", 1).Keys()
 	}
 	return r.Intn(100)
 }
